@@ -1,7 +1,7 @@
 (* Machine.v — the reference machine as a small-step system over explicit configurations, driven
    by the SAME generic interpreter (gexec_insn) instantiated with an unbounded branch stack, and
    the generator judgement [Gen] used by the compiler-correctness induction. *)
-From FR Require Import Base State Utf8 Ast Analyze Sem Vm StateRefine VmRefine SemK Det.
+From FR Require Import Base State Utf8 Ast Analyze Sem Vm StateRefine VmRefine SemK Scope Det.
 From Coq Require Import Lia NArith.
 
 (* the reference machine without the stack bound *)
